@@ -66,6 +66,9 @@ type c02Conn struct {
 	finGate      chan struct{} // ... once this is closed (the peer of this conn "closes" then)
 	finFired     atomic.Bool
 	dataErrReads atomic.Int64 // Reads answered with (n>0, err)
+	closeGate    chan struct{} // non-nil: Close blocks until this is closed (slow-closing transport)
+	closeStarted chan struct{} // closed when the first Close call has begun
+	closeOnce    sync.Once
 	timeouts     atomic.Int64
 	faultFired   atomic.Bool
 	maxReadSeen  atomic.Int64
@@ -165,6 +168,10 @@ func (c *c02Conn) Write(p []byte) (int, error) {
 
 func (c *c02Conn) Close() error {
 	c.closes.Add(1)
+	if c.closeGate != nil {
+		c.closeOnce.Do(func() { close(c.closeStarted) })
+		<-c.closeGate
+	}
 	return c.Conn.Close()
 }
 
@@ -693,12 +700,14 @@ func c02Tagged(tags []string) (sig string, parkedIO int, other []string) {
 			strings.Contains(st, "internal/poll.runtime_pollWait"),
 			strings.Contains(st, "verifkit.(*BufConn).Read"):
 			kind = "io"
+		case strings.Contains(st, "sync.(*RWMutex).Lock"), strings.Contains(st, "sync.(*RWMutex).RLock"), strings.Contains(st, "sync.(*Mutex).Lock"):
+			kind = "mutex"
 		case strings.Contains(st, "sync.(*WaitGroup).Wait"):
 			kind = "wgwait"
 		default:
 			kind = "other:" + g.State
 		}
-		if kind == "io" {
+		if kind == "io" || kind == "mutex" {
 			parkedIO++
 		} else if kind != "wgwait" {
 			other = append(other, kind)
@@ -711,6 +720,7 @@ func c02Tagged(tags []string) (sig string, parkedIO int, other []string) {
 
 func c02BridgeTag(b *Bridge) string { return fmt.Sprintf("tunnel.(*Bridge).CopyWithControl(%p", b) }
 func c02StartTag(b *Bridge) string  { return fmt.Sprintf("tunnel.(*Bridge).Start(%p", b) }
+func c02CloseTag(b *Bridge) string  { return fmt.Sprintf("tunnel.(*Bridge).Close(%p", b) }
 func c02ReaderTag(e *c02End) string { return fmt.Sprintf("tunnel.(*c02End).reader(%p", e) }
 
 // c02Parked reports whether every goroutine of the bridge (and of the given harness
@@ -718,7 +728,7 @@ func c02ReaderTag(e *c02End) string { return fmt.Sprintf("tunnel.(*c02End).reade
 // waiting for such a goroutine) in three consecutive dumps, with no progress of the
 // readers in between: a state that cannot change without new external input.
 func c02Parked(b *Bridge, readers ...*c02End) (bool, string) {
-	tags := []string{c02BridgeTag(b), c02StartTag(b)}
+	tags := []string{c02BridgeTag(b), c02StartTag(b), c02CloseTag(b)}
 	for _, e := range readers {
 		tags = append(tags, c02ReaderTag(e))
 	}
@@ -736,7 +746,7 @@ func c02Parked(b *Bridge, readers ...*c02End) (bool, string) {
 			return false, sig
 		}
 		// at least one goroutine of the bridge itself must be there and parked
-		if bs, bio, _ := c02Tagged(tags[:2]); bs == "" || bio == 0 {
+		if bs, bio, _ := c02Tagged(tags[:3]); bs == "" || bio == 0 {
 			return false, sig
 		}
 		if i > 0 && sig != prev {
@@ -1801,4 +1811,187 @@ func TestVerifC02EarlyEnd(t *testing.T) {
 	run.Floor("all_cases_decided", 1)
 	run.Floor("closure_observed_by_peer", int64(run.Pick(1000, 10000)))
 	run.Floor("fin_with_data_fired", int64(run.Pick(200, 2000)))
+}
+
+
+// TestVerifC02CloseRace drives the interleaving "the server tears the bridge down
+// (Bridge.Close) while the target end attaches": the source transport closes slowly
+// (its Close blocks until the harness releases it), Bridge.Close is inside that close
+// when SetTargetConnection is called and Start wakes up; then the slow close completes.
+// The target was attached while the bridge was still alive, so it must observe closure
+// and Start/Close must return. A bridge whose goroutines (Start, Close, copy loops) are
+// all parked in mutex/transport waits in three stable dumps after the release can never
+// finish: violation. Anything else still running at the watchdog is inconclusive.
+func TestVerifC02CloseRace(t *testing.T) {
+	vk.Quiet()
+	run := vk.Start(t, "C02", "closerace")
+	defer run.Finish()
+	run.Rule("source transport with a gated (slow) Close over {net.Pipe, in-memory pipe, TCP}, target over the same set, raw conn or StreamProcessor; Bridge.Close started, held inside the source close, target attached, slow close released {as soon as Start is seen waiting for a lock, immediately, after a yield}; distinct = (transports, stream, release mode)")
+	ln, err := net.Listen("tcp", "127.0.0.1:0")
+	if err != nil {
+		t.Fatalf("c02: listen: %v", err)
+	}
+	defer ln.Close()
+	nw := &c02Net{ln: ln}
+	r := run.Rand("gen")
+	n := run.Pick(400, 4000)
+	type rcase struct {
+		SrcT, TgtT string
+		Stream     bool
+		Release    string
+	}
+	trs := []string{"pipe", "buf", "buf", "tcp"}
+	cases := make([]rcase, n)
+	for i := range cases {
+		cases[i] = rcase{SrcT: trs[r.Intn(4)], TgtT: trs[r.Intn(4)], Stream: r.Intn(2) == 0,
+			Release: []string{"start-waits-for-lock", "start-waits-for-lock", "immediately", "after-yield"}[r.Intn(4)]}
+	}
+	run.Sample(cases[0])
+	var undecided, next atomic.Int64
+	var wg sync.WaitGroup
+	for w := 0; w < 6; w++ {
+		wg.Add(1)
+		go func() {
+			defer wg.Done()
+			for {
+				i := int(next.Add(1) - 1)
+				if i >= len(cases) || run.Violations() >= 6 {
+					return
+				}
+				c := cases[i]
+				if i%32 == 0 {
+					run.Case("closerace|bridge-close-races-target-attach", c)
+				}
+				ctx, cancel := context.WithCancel(context.Background())
+				cliS, srvSraw, e1 := nw.pair(c.SrcT)
+				if e1 != nil {
+					cancel()
+					undecided.Add(1)
+					continue
+				}
+				cliT, srvTraw, e2 := nw.pair(c.TgtT)
+				if e2 != nil {
+					cliS.Close()
+					srvSraw.Close()
+					cancel()
+					undecided.Add(1)
+					continue
+				}
+				srvS, srvT := c02Wrap(srvSraw), c02Wrap(srvTraw)
+				srvS.closeGate, srvS.closeStarted = make(chan struct{}), make(chan struct{})
+				var ss, ts stream.PackageStreamer
+				if c.Stream {
+					ss = stream.NewStreamProcessor(srvS, srvS, ctx)
+					ts = stream.NewStreamProcessor(srvT, srvT, ctx)
+				}
+				b := NewBridge(ctx, &BridgeConfig{TunnelID: fmt.Sprintf("c02r-%d", i), SourceConn: srvS, SourceStream: ss})
+				T := &c02End{name: "tgt", cli: cliT, srv: srvT, rbuf: 4096, wDone: make(chan struct{}), rDone: make(chan struct{}),
+					gotAll: make(chan struct{}), wStart: make(chan struct{})}
+				go T.reader()
+				startDone, closeDone := make(chan struct{}), make(chan struct{})
+				go func() { b.Start(); close(startDone) }()
+				go func() { b.Close(); close(closeDone) }()
+				released := false
+				release := func() {
+					if !released {
+						released = true
+						close(srvS.closeGate)
+					}
+				}
+				det := func(extra map[string]any) map[string]any {
+					m := map[string]any{"case": c, "srv_tgt_closes": srvT.closes.Load(), "srv_src_closes": srvS.closes.Load()}
+					for k, v := range extra {
+						m[k] = v
+					}
+					return m
+				}
+				setup := time.NewTimer(c02WatchClose)
+				select {
+				case <-srvS.closeStarted:
+				case <-setup.C:
+					run.Count("watchdog", 1)
+					undecided.Add(1)
+				}
+				setup.Stop()
+				// the target attaches while Bridge.Close is held inside the source close
+				b.SetTargetConnection(&c02TunnelConn{id: "t", conn: srvT, st: ts})
+				switch c.Release {
+				case "start-waits-for-lock":
+					// logical: poll (bounded) until the Start goroutine is parked in a lock
+					for k := 0; k < 200; k++ {
+						sig, _, _ := c02Tagged([]string{c02StartTag(b)})
+						if strings.Contains(sig, "/mutex") {
+							run.Count("start_seen_waiting_for_lock", 1)
+							break
+						}
+						if sig == "" {
+							break
+						}
+						time.Sleep(500 * time.Microsecond)
+					}
+				case "after-yield":
+					runtime.Gosched()
+				}
+				release()
+				finished := false
+				wd := time.NewTimer(c02WatchClose)
+				poll := time.NewTicker(500 * time.Millisecond)
+			wait:
+				for _, ch := range []chan struct{}{closeDone, startDone} {
+					for {
+						select {
+						case <-ch:
+							if ch == startDone {
+								finished = true
+							}
+							continue wait
+						case <-poll.C:
+							if parked, sig := c02Parked(b); parked {
+								run.Violation("C02:closure|bridge-hang|script=close-races-target-attach", det(map[string]any{"bridge_goroutines": sig,
+									"what": "Bridge.Close was in progress when the target attached; after the slow source close completed, Start/Close stay parked (lock/transport waits) for ever: the target never observes closure and Start never returns"}))
+								break wait
+							}
+						case <-wd.C:
+							run.Count("watchdog", 1)
+							undecided.Add(1)
+							break wait
+						}
+					}
+				}
+				wd.Stop()
+				poll.Stop()
+				if finished {
+					run.Count("closure_checks", 1)
+					if srvT.closes.Load() == 0 {
+						run.Violation("C02:closure|peer-conn-left-open|script=close-races-target-attach", det(nil))
+					} else {
+						wd2 := time.NewTimer(c02WatchClose)
+						select {
+						case <-T.rDone:
+							run.Count("closure_observed_by_peer", 1)
+						case <-wd2.C:
+							run.Count("harness_reader_stuck", 1)
+							undecided.Add(1)
+						}
+						wd2.Stop()
+					}
+				}
+				cliS.Close()
+				cliT.Close()
+				srvTraw.Close()
+				srvSraw.Close()
+				cancel()
+				<-T.rDone
+				run.Eval(1)
+				run.Distinct(fmt.Sprintf("%s>%s|stream=%v|%s", c.SrcT, c.TgtT, c.Stream, c.Release))
+			}
+		}()
+	}
+	wg.Wait()
+	if undecided.Load() == 0 {
+		run.Count("all_cases_decided", 1)
+	}
+	run.Floor("all_cases_decided", 1)
+	run.Floor("closure_observed_by_peer", int64(run.Pick(300, 3000)))
+	run.Floor("start_seen_waiting_for_lock", int64(run.Pick(20, 200)))
 }
